@@ -35,7 +35,10 @@ fn mappings_strategy() -> BoxedStrategy<Case> {
     prop_oneof![
       8 => any::<u16>().prop_map(|s| TOK[idx(s, TOK.len())].to_string()),
       // long continuation runs ('g' = continuation with data 0, '/' = continuation with data 31)
-      1 => (1usize..40, any::<bool>(), any::<u16>()).prop_map(|(n, hi, end)| format!("{}{}", if hi { "/" } else { "g" }.repeat(n), ["A", "B", "D", "f", "P"][idx(end, 5)])),
+      // the first digit carries the sign: '/' and 'h' negative, '+' and 'g' positive
+      1 => (1usize..40, any::<bool>(), any::<u16>()).prop_map(|(n, hi, end)| {
+        format!("{}{}{}", ["/", "+", "g", "h"][(end & 3) as usize], if hi { "/" } else { "g" }.repeat(n - 1), ["A", "B", "D", "f", "P"][idx(end, 5)])
+      }),
       // huge deltas
       1 => (0u64..u64::MAX, any::<bool>()).prop_map(|(v, neg)| {
         let mut s = String::new();
